@@ -1,4 +1,5 @@
 import Mochi.Model.Broker
+import Mochi.Lemmas.BrokerSession
 /-!
 # C35 — The connected-client limit is never exceeded (sequential part)
 
@@ -48,3 +49,152 @@ example :
     established s = 1 := by decide
 
 end Mochi.Broker
+
+/-! ## The limit holds for every history without schedule ops (`Mochi/Lemmas/BrokerSession.lean`) -/
+namespace Mochi.Broker
+open Mochi.Topics
+
+/-- the invariant of the walk: reachable, counters right, capabilities as configured, `ClientsConnected ≤ MaximumClients` -/
+structure fc35_J (caps : Caps) (s : Server) : Prop where
+  reach : ReachSeq caps s
+  cnt : Counted s
+  capsEq : s.caps = caps
+  le : s.info.connected ≤ caps.maximumClients
+
+theorem fc35_J_init (caps : Caps) : fc35_J caps (init caps) :=
+  ⟨ReachSeq.init, Counted_init caps, rfl, Int.natCast_nonneg _⟩
+
+theorem fc35_J_step {caps : Caps} {s : Server} (h : fc35_J caps s) (op : Op) (hseq : op.isSeq = true)
+    (hf : OpFresh s op) (hid : opIdOK op = true) : fc35_J caps (step s op).1 := by
+  obtain ⟨hs, hw, _, hn1, hn2, hn3⟩ := h.reach.inv
+  have hsched : OpSched s op := by
+    refine ⟨fun i _ => ⟨?_, ?_⟩, hid⟩
+    · rw [hn3]; intro p hp; cases hp
+    · rw [hn2]; exact List.not_mem_nil
+  refine ⟨h.reach.step op hseq hf, Counted_step s op hw hf hsched h.cnt, ?_, ?_⟩
+  · cases op with
+    | connect conn k =>
+      rcases fc35_step_connect s hs hw conn k hf with ⟨c, _⟩ | r
+      · rw [c, h.capsEq]
+      · rw [r.caps, h.capsEq]
+    | _ => rw [(fc35_step_other s _ hw h.cnt.inflight.nz hseq (fun _ _ e => by cases e)).caps, h.capsEq]
+  · cases op with
+    | connect conn k =>
+      rcases fc35_step_connect s hs hw conn k hf with ⟨_, l⟩ | r
+      · rw [← h.capsEq]; exact l
+      · exact Int.le_trans r.le h.le
+    | _ => exact Int.le_trans (fc35_step_other s _ hw h.cnt.inflight.nz hseq (fun _ _ e => by cases e)).le h.le
+
+theorem fc35_J_run {caps : Caps} {s : Server} (h : fc35_J caps s) (ops : List Op) (hseq : SeqOps ops)
+    (hf : OpsFresh s ops) (hid : ∀ op ∈ ops, opIdOK op = true) : fc35_J caps (run s ops) := by
+  induction ops generalizing s with
+  | nil => exact h
+  | cons op ops ih =>
+    exact ih (fc35_J_step h op (hseq op List.mem_cons_self) hf.1 (hid op List.mem_cons_self))
+      (fun o ho => hseq o (List.mem_cons_of_mem _ ho)) hf.2 (fun o ho => hid o (List.mem_cons_of_mem _ ho))
+
+/-- the established connections (registered, open, not the inline client) are among the open network clients -/
+theorem fc35_established_le {s : Server} (hw : WF s) : established s ≤ liveClients s := by
+  have he : established s = liveReg s := by
+    unfold established liveReg
+    rw [List.countP_eq_length_filter]
+  rw [he]
+  unfold liveReg liveClients
+  rw [← List.countP_eq_length_filter, ← countP_range_getD s.objs {} (fun c => c.isOpen && !c.inline),
+    (range_perm_reg hw).countP_eq, List.countP_append, List.countP_map]
+  exact Nat.le_add_right _ _
+
+/-- **C35, the limit holds sequentially.**  For every history from `init caps` without schedule ops (`SeqOps`), on fresh
+    connection numbers (`OpsFresh`), in which no network client uses the inline client's id (`opIdOK`, the hypothesis
+    of the counter theorem `Counted_run`): in the final state — hence, the hypotheses being prefix-closed, after every
+    op — the capabilities are the configured ones, `ClientsConnected` is the number of open network client objects,
+    and that number — so also the number of ESTABLISHED connections (registered, open, not the inline client) — is at
+    most `MaximumClients`.
+
+    The bound is exactly `MaximumClients` (no `max`, no `≥ 1`): the test `ClientsConnected ≥ MaximumClients → refuse` is
+    evaluated before the increment, so an admitted CONNECT found the counter strictly below the limit; with
+    `MaximumClients = 0` every CONNECT is refused.  With schedule ops it is false: `C35_limit_counterexample` (F35). -/
+theorem C35_limit_holds_seq (caps : Caps) (ops : List Op) (hseq : SeqOps ops) (hf : OpsFresh (init caps) ops)
+    (hid : ∀ op ∈ ops, opIdOK op = true) :
+    (run (init caps) ops).caps = caps ∧
+    (run (init caps) ops).info.connected = liveClients (run (init caps) ops) ∧
+    liveClients (run (init caps) ops) ≤ caps.maximumClients ∧
+    established (run (init caps) ops) ≤ caps.maximumClients := by
+  have j := fc35_J_run (fc35_J_init caps) ops hseq hf hid
+  obtain ⟨_, hw, _, hn⟩ := j.reach.inv
+  have hq := j.cnt.connected_quiescent hn
+  have hl : liveClients (run (init caps) ops) ≤ caps.maximumClients := by
+    have := j.le
+    rw [hq] at this
+    exact Int.ofNat_le.mp this
+  exact ⟨j.capsEq, hq, hl, Nat.le_trans (fc35_established_le hw) hl⟩
+
+/-- after every op of such a history (the statement for every prefix) -/
+theorem C35_limit_holds_seq_prefix (caps : Caps) (ops : List Op) (hseq : SeqOps ops) (hf : OpsFresh (init caps) ops)
+    (hid : ∀ op ∈ ops, opIdOK op = true) (n : Nat) :
+    established (run (init caps) (ops.take n)) ≤ caps.maximumClients := by
+  have hf' : ∀ (s : Server) (l : List Op) (n : Nat), OpsFresh s l → OpsFresh s (l.take n) := by
+    intro s l
+    induction l generalizing s with
+    | nil => intro n _; rw [List.take_nil]; trivial
+    | cons o l ih =>
+      intro n h
+      cases n with
+      | zero => trivial
+      | succ n => exact ⟨h.1, ih _ n h.2⟩
+  exact (C35_limit_holds_seq caps (ops.take n) (fun o ho => hseq o (List.mem_of_mem_take ho)) (hf' _ _ n hf)
+    (fun o ho => hid o (List.mem_of_mem_take ho))).2.2.2
+
+end Mochi.Broker
+
+namespace Mochi.Broker
+
+/-- **why `opIdOK` is a hypothesis (model artefact, not Go behaviour).**  Limit 1; a network client connects with the
+    inline client's id `inline`: in the MODEL the take-over of object 0 runs the tail of `attachClient` for it
+    (`detach 0 true`), whose deferred decrement brings `ClientsConnected` back to 0, so a second client is admitted: two
+    established connections.  In Go the inline client is created by `NewClient(nil, LocalListener, InlineClientId, true)`
+    (/repo/server.go:200-201) and never runs `attachClient`, so there is no deferred decrement for it
+    (/repo/server.go:454-455 belong to the handler of a network connection): the counter stays 1 and the second CONNECT
+    is refused.  The model's `connect` is faithful only for histories in which no network client uses that id — the
+    hypothesis `opIdOK` of `Counted_run`, which every generated history satisfies. -/
+theorem C35_limit_inline_id_counterexample :
+    let ops : List Op := [.connect 1 { ver := 5, id := inlineID }, .connect 2 { ver := 5, id := [99] }]
+    let s := run (init { maximumClients := 1 }) ops
+    SeqOps ops ∧ OpsFresh (init { maximumClients := 1 }) ops ∧ ¬ (∀ op ∈ ops, opIdOK op = true) ∧
+    established s = 2 ∧ s.info.connected = 1 ∧ s.caps.maximumClients = 1 := by decide
+
+end Mochi.Broker
+
+/-! ## Non-vacuity: a resumed session fills the limit, the next CONNECT is refused -/
+namespace Mochi.Broker
+open Mochi.Topics
+
+/-- limit 2: `c1` and `c2` connect, `c1` is lost (its session stays), `c1` resumes on connection 3 (two established
+    connections: the limit), `c3` tries on connection 4 -/
+def c35History : List Op :=
+  [.connect 1 { ver := 5, clean := false, id := [99, 49], sei := some 100 },
+   .recv 1 (.subscribe 5 0 [{ filter := [97], qos := 1 }]),
+   .connect 2 { ver := 4, id := [99, 50] },
+   .recv 2 (.publish 1 false false 7 [97] [1] 0 none),
+   .drop 1,
+   .connect 3 { ver := 5, clean := false, id := [99, 49], sei := some 100 },
+   .connect 4 { ver := 5, id := [99, 51] }]
+
+example : SeqOps c35History ∧ OpsFresh (init { maximumClients := 2 }) c35History ∧
+    (∀ op ∈ c35History, opIdOK op = true) := by decide
+
+/-- the CONNECT at the limit is refused with 0x89 and closed; the limit is reached, not passed -/
+example : (step (run (init { maximumClients := 2 }) (c35History.take 6)) (.connect 4 { ver := 5, id := [99, 51] })).2 =
+      [.wrote 4 (.connack 5 false 0x89 1024 2 none), .closed 4] ∧
+    established (run (init { maximumClients := 2 }) (c35History.take 6)) = 2 ∧
+    established (run (init { maximumClients := 2 }) c35History) = 2 ∧
+    (run (init { maximumClients := 2 }) c35History).info.connected = 2 := by decide
+
+/-- `C35_limit_holds_seq` instantiated -/
+example : established (run (init { maximumClients := 2 }) c35History) ≤ 2 :=
+  (C35_limit_holds_seq { maximumClients := 2 } c35History (by decide) (by decide) (by decide)).2.2.2
+
+end Mochi.Broker
+
+#print axioms Mochi.Broker.C35_limit_holds_seq
+#print axioms Mochi.Broker.C35_limit_holds_seq_prefix
